@@ -77,11 +77,11 @@ fn process_image_assets(
     let mut applied = Vec::new();
     for (id, image) in map.drain() {
         applied.push(id);
-        sync_tracker.push_network_handle_change(id);
-        let id: AssetId<Image> = AssetId::Uuid { uuid: id };
         let Some(img) = bin_to_image(&image) else {
             continue;
         };
+        sync_tracker.push_network_handle_change(id);
+        let id: AssetId<Image> = AssetId::Uuid { uuid: id };
         images.insert(id, img);
     }
     drop(map);
